@@ -17,7 +17,7 @@ PROPERTY_ID = "C03"
 RULE = ("random Hermitian real-space models (1-3 WFs, <=9 R-vectors, 11 lattice families; all matrices "
         "Ham,AA,BB,CC,FF,GG,OO (+SS,SA,SHA,SR,SH,SHR) present; spinless / double_spin() with exact two-fold "
         "degeneracy / explicit time-reversal symmetric with use_irred_kpt) or polynomial k.p models; total grid "
-        "N in [1..8]^3 (<=96 points); two drawn factorisations N=NKdiv*NKFFT and two drawn FFT libraries "
+        "N in [1..8]^3 (<=96 points), one long axis up to 256, or 1100-2050 points with a pure-FFT factorisation (> 1024 FFT points); two drawn factorisations N=NKdiv*NKFFT and two drawn FFT libraries "
         "(fftw/numpy/slow); 2-4 calculators drawn from a registry of 61 static/dynamic/sdct/tabulating calculators "
         "(static ones with and without tetrahedra); non-trivial = the two factorisations differ in NKdiv and in "
         "NKFFT and at least one compared result is non-zero; distinct = distinct generated case")
@@ -303,6 +303,26 @@ def _arrays(res):
     return out
 
 
+# big FFT grids (more than 1024 points in one FFT, where block-wise processing of the k-points of one K-point would
+# start): factorisation A is the pure FFT one (NKdiv=1), B is drawn
+BIG_N = [[12, 12, 12], [11, 11, 11], [36, 36, 1], [1, 48, 24], [1100, 1, 1], [35, 1, 33], [16, 16, 5], [13, 10, 9],
+         [1, 1, 2050], [10, 10, 11], [45, 25, 1], [6, 15, 14]]
+
+
+@st.composite
+def big_case_st(draw):
+    N = list(draw(st.sampled_from(BIG_N)))
+    c = _common(draw, N)
+    c["selA"] = [-1, -1, -1]
+    c["selB"] = [draw(st.integers(0, 5)) for _ in range(3)]
+    c["ne"] = min(c["ne"], 3)
+    c.update(syskind="plain", model=draw(bgrid.model_st(max_wann=2, max_npairs=3, rmax=1)), irred=False,
+             calcs=draw(st.sampled_from([[["s:CumDOS", False], ["s:AHC_internal", False]],
+                                         [["s:Ohmic_FermiSea", False], ["s:DOS", False]],
+                                         [["s:AHC", False], ["s:Ohmic_FermiSurf", False]]])))
+    return c
+
+
 def check(case):
     syskind = case["syskind"]
     N = [int(x) for x in case["N"]]
@@ -396,4 +416,5 @@ import os as _os
 _BS = float(_os.environ.get("VERIF_BUDGET_SCALE", "1") or 1)
 SUBS = [Sub("run", case_st(), check, quick=48, thorough=4800, budget_quick=70 * _BS, budget_thorough=500 * _BS),
         Sub("long", long_case_st(), check, quick=24, thorough=480, budget_quick=60 * _BS, budget_thorough=300 * _BS),
+        Sub("big", big_case_st(), check, quick=8, thorough=96, budget_quick=60 * _BS, budget_thorough=300 * _BS, per_shard_min=1),
         Sub("kp", kp_case_st(), check, quick=8, thorough=640, budget_quick=40 * _BS, budget_thorough=300 * _BS)]
